@@ -107,6 +107,11 @@ func vh_C20_hashes() {
 		`(def p (package "pk" (def a 1) (def aa 2) (def A 9001))) (str p)`,
 		`(def h (hash ab: 1 AB: 2 Ab: 9001)) (list (str h) (keys h))`,
 		`(def p (package "pk" (def zz 1) (def inner (package "in" (def k 1) (def K 9001))))) (str p)`,
+		// error texts that name one of several offending things
+		`(func tfn [a:int64 b:string] [n:int64] (return a)) (tfn zeta:1 alpha:2 mu:3)`,
+		`(struct Pt [(field X: int64 e:0)]) (Pt Zeta: 1 Alpha: 2 Mu: 3)`,
+		`(def h (hash a: 1)) (hget h zeta:) `,
+		`(+ 1 undefinedA undefinedB)`,
 	}
 	k := vChoice("program", len(progs))
 	run := func(e *Zlisp) string {
